@@ -20,7 +20,7 @@ from vlib.core import Stage, Violation, fail
 ID = "C11"
 MANIFEST = {
     "category": "exploration",
-    "text": "Stateful generated-input search (Hypothesis RuleBasedStateMachine): histories of up to 30 (thorough 60) steps over a pool of condition and AHB expressions with known structure - parse (cache hit or miss), parse a fresh string, send a string through the resolver (which replaces time conditions), use a string as the body of a package and expand it, edit a previously returned tree (incl. the expanded one) in place (replace / delete / append / clear / reverse children, overwrite the rule name, at any depth; overwrite the .value or .type attribute of a token), flood both caches with 1100 distinct strings so that the 1024-entry LRU evicts, evaluate under an assignment. Invariant after every step: the tree returned for a string matches the AST it was rendered from and equals the pristine deep copy of the first parse in this history; evaluation equals the reference evaluator. Caches are cleared at the start of every history. A second stage (cold-start) executes parse / flood / re-parse traces in a freshly started interpreter, so that the first use of both parsers in a process is judged as well; a quarter of the AHB pool strings (half of them there) carry no-break or other Unicode spaces inside their condition parts, which the AHB parser on its own must hand back unchanged. The cold-start traces also contain expressions nested 245-340 levels deep and in-place edits of the returned trees (the child interpreter has the default recursion limit). A further rule parses malformed strings (fixed list, pool strings with one bracket removed), which must be rejected with SyntaxError and leave no trace.",
+    "text": "Stateful generated-input search (Hypothesis RuleBasedStateMachine): histories of up to 30 (thorough 60) steps over a pool of condition and AHB expressions with known structure - parse (cache hit or miss), parse a fresh string, send a string through the resolver (which replaces time conditions), use a string as the body of a package and expand it, edit a previously returned tree (incl. the expanded one) in place (replace / delete / append / clear / reverse children, overwrite the rule name, at any depth; overwrite the .value or .type attribute of a token), flood both caches with 1100 distinct strings so that the 1024-entry LRU evicts, evaluate under an assignment. Invariant after every step: the tree returned for a string matches the AST it was rendered from and equals the pristine deep copy of the first parse in this history; evaluation equals the reference evaluator. Caches are cleared at the start of every history. A second stage (cold-start) executes parse / flood / re-parse traces in a freshly started interpreter, so that the first use of both parsers in a process is judged as well; a quarter of the AHB pool strings (half of them there) carry no-break or other Unicode spaces inside their condition parts, which the AHB parser on its own must hand back unchanged. The cold-start traces also contain expressions nested 245-340 levels deep and in-place edits of the returned trees (the child interpreter has the default recursion limit). A further rule parses malformed strings (fixed list, pool strings with one bracket removed), which must be rejected with SyntaxError and leave no trace. Rule twin adds an AHB expression that differs from a pool entry only by more trailing whitespace; condition tokens are compared with the exact written text.",
     "note": "Trusted: ref.match / the AHB split oracle, the reference evaluator, copy.deepcopy of lark trees, Hypothesis' stateful engine. Histories are bounded in length; the flood rule runs at most once per history. Process configuration by shard (vlib/sut.py; recorded in replay files): plain / parse caches preheated beyond their size / warnings attributed to ahbicht raised as errors / logging fully enabled with every record rendered; one event loop per process or a new one per call; five process time zones; the hash seed is the shard number; namesakes of ahbicht's marshmallow schema classes are registered.",
     "technique": "stateful / model-based property testing (rule-based state machine over parse-edit-evict histories with a cache-independent oracle)",
 }
@@ -50,7 +50,19 @@ def _verify_ahb(tree, entry):
     text, parts = entry["s"], entry["parts"]
     if not isinstance(tree, Tree) or tree.data != "ahb_expression" or len(tree.children) != len(parts):
         fail("structure", f"AHB parser returned {tree!r} for {text!r}, expected {len(parts)} parts")
-    for child, (indicator, cond) in zip(tree.children, parts):
+    # the exact text of every condition token: everything between two indicators, surrounding whitespace included
+    exact, position = [], 0
+    for number, (indicator, cond) in enumerate(parts):
+        position = text.index(indicator, position) + len(indicator)
+        if cond is None:
+            exact.append(None)
+            continue
+        end = text.index(cond, position) + len(cond)
+        while end < len(text) and text[end].isspace():
+            end += 1
+        exact.append(text[position:end])
+        position = end
+    for child, (indicator, cond), written in zip(tree.children, parts, exact):
         if not isinstance(child, Tree) or not child.children:
             fail("structure", f"AHB parser returned {tree!r} for {text!r}")
         if not isinstance(child.children[0], Token) or str(child.children[0]) != indicator or child.children[0].value != indicator:
@@ -62,8 +74,8 @@ def _verify_ahb(tree, entry):
             if child.data != "single_requirement_indicator_expression" or len(child.children) != 2:
                 fail("structure", f"{text!r}: part became {child!r}")
             token = child.children[1]
-            if not isinstance(token, Token) or str(token).strip(ref.WS_CHARS) != cond.strip(ref.WS_CHARS):
-                fail("structure", f"{text!r}: condition part {token!r} instead of {cond!r}")
+            if not isinstance(token, Token) or str(token) != written or token.value != written:
+                fail("structure", f"{text!r}: condition part {token!r} instead of {written!r}")
 
 
 class Interpreter:
@@ -298,6 +310,9 @@ def classify(case, info):
         labels.append("evaluates")
     if any(op["op"] == "reject" for op in case["ops"]):
         labels.append("with-rejected-strings")
+    texts = [op["entry"].get("s", "") for op in case["ops"] if op["op"] == "add" and op["entry"]["kind"] == "ahb"]
+    if len({t.rstrip() for t in texts}) < len(set(texts)):
+        labels.append("with-whitespace-twins")
     return labels, bool(info["reparse_after_edit"] or info["reparse_after_flood"])
 
 
@@ -458,6 +473,16 @@ def make_machine(tier, recorder):
         @rule(base=st.integers(100000, 900000))
         def flood(self, base):
             self._do({"op": "flood", "base": base})
+
+        @rule(index=st.integers(0, 50), tail=st.sampled_from([" ", "\n", "\t ", "  "]))
+        def twin(self, index, tail):
+            """an AHB expression that differs from a pool entry only by additional trailing whitespace - another string"""
+            entry = self.interp.pool[index % len(self.interp.pool)]
+            if entry["kind"] != "ahb" or entry["parts"][-1][1] is None:
+                return
+            twin = dict(entry, s=entry["s"] + tail)
+            self._do({"op": "add", "entry": twin})
+            self._do({"op": "parse", "i": len(self.interp.pool) - 1})
 
         @rule(index=st.integers(0, 50), pos=st.integers(0, 40), derive=st.booleans())
         def reject(self, index, pos, derive):
